@@ -816,7 +816,9 @@ M1:    if (Mode = "trace" /\ ~wasreset) {
                                  ELSE [ii \in Insts |-> [mm \in Machines |-> CountedIn(SelectSeq(pool[ii][mm], LAMBDA pe : pe.kind = "ev" /\ ~pe.marked))]]
                          tot[ss \in SUBSET (Insts \X Machines)] == IF ss = {} THEN 0 ELSE LET x == CHOOSE y \in ss : TRUE IN held[x[1]][x[2]] + tot[ss \ {x}]
                      IN IF IsB THEN CurLine.live = tot[Insts \X Machines] ELSE CurLine.live >= tot[Insts \X Machines])
-                /\ (IF lastcall.op = "pe" THEN (CurLine.rv % 2) = (ret % 2) /\ ((CurLine.rv = 0) <=> (ret = 0)) ELSE TRUE)
+                /\ (IF lastcall.op = "pe" THEN (CurLine.rv % 2) = (ret % 2) /\ ((CurLine.rv = 0) <=> (ret = 0))
+                    ELSE IF lastcall.op \in {"drain", "drain1"} /\ IsM THEN CurLine.rv = ret       \* process_event_pool returns the number of processed events
+                    ELSE TRUE)
                 /\ (IF running[lastcall.i][Def.root]
                     THEN /\ DOMAIN CurLine.st = ActiveTree(lastcall.i, Def.root)
                          /\ \A mm \in ActiveTree(lastcall.i, Def.root) : CurLine.st[mm] = Ids(mm, active[lastcall.i][mm])
